@@ -1119,7 +1119,6 @@ void OPNMIDIplay::noteUpdate(size_t midCh,
     const double currentTone    = info.currentTone;
     const uint8_t vol     = info.vol;
     const size_t midiins = info.midiins;
-    const OpnInstMeta &ains = *info.ains;
     OpnChannel::Location my_loc;
     my_loc.MidCh = static_cast<uint16_t>(midCh);
     my_loc.note  = info.note;
@@ -1130,6 +1129,9 @@ void OPNMIDIplay::noteUpdate(size_t midCh,
             m_midiChannels[midCh].activenotes.erase(i);
         return;
     }
+
+    // A blank note has no instrument (NULL): bind the reference only past this point
+    const OpnInstMeta &ains = *info.ains;
 
     for(unsigned ccount = 0, ctotal = info.chip_channels_count; ccount < ctotal; ccount++)
     {
